@@ -29,7 +29,7 @@ RULE = (
 
 def units(tier, seed):
     fam = G.general_family(tier)
-    sel = [s for s in fam if s["name"].split(":")[0] in ("S1", "S2", "S3", "S6", "S7", "S8", "S9", "S10", "S12", "S17")]
+    sel = [s for s in fam if s["name"].split(":")[0] in ("S1", "S2", "S3", "S5", "S6", "S7", "S8", "S9", "S10", "S12", "S14", "S17")]
     sel += [s for s in fam if s["name"].startswith(("F1:", "G1:"))]
     if tier != "quick":
         sel = fam
@@ -38,8 +38,11 @@ def units(tier, seed):
         for rep in ("ge", "sge", "dsge", "stack"):
             decs = ("maxdepth", "pigrow") if rep in ("ge", "sge") else ("maxdepth",)
             for dec in decs:
-                us.append({"spec": spec, "rep": rep, "decider": dec, "L": 3, "depth_off": 1, "seed": seed,
-                           "max_execs": 40 if tier == "quick" else 300})
+                # stateful deciders (PI-grow) need some depth before their state can leak between mappings
+                offs = (1, 2) if (dec == "pigrow" and (tier != "quick" or spec["name"].startswith("S"))) else (1,)
+                for off in offs:
+                    us.append({"spec": spec, "rep": rep, "decider": dec, "L": 3, "depth_off": off, "seed": seed,
+                               "max_execs": 40 if tier == "quick" else 300})
     return us
 
 
